@@ -513,8 +513,7 @@ func TestC19(t *testing.T) {
 		jl = append(jl, map[string]any{"case": c})
 	}
 
-	rep.CoqFiles = append(rep.CoqFiles, f.finish(t, dir))
-	rep.CaseFiles = append(rep.CaseFiles, writeJSONL(t, dir, "C19_heap_cases.jsonl", jl))
+	f.finishSharded(t, dir, rep, jl, 400)
 	rep.Assumptions = append(rep.Assumptions, "objects are mutated only through the metadata/spec API (not by writing into the map returned by Raw()); resources delivered inside watch events are observed, never mutated (the property does not list them)")
 	rep.write(t, dir)
 }
